@@ -564,3 +564,57 @@ Example C02_burst_examples :
   /\ fst (b_run false bs_init [(BoSched, 0); (BoSched, 1); (BoCancel, 0); (BoSched, 2); (BoRun, 0)])
      = {| bs_table := []; bs_runs := [(2, 1)] |}.
 Proof. vm_compute. split; [reflexivity | split; reflexivity]. Qed.
+
+(* --- callers' contexts, real-time runs, "every start has a cause of its own" ------------------------
+   The harness also hands cancelled / expired / concurrently cancelled contexts of the CALLER to
+   RunJob, RunJobIfExists, CancelJob, CancelJobIfExists, JobExists (they are not the job's context);
+   the scripts of the model do not mention them: every statement above holds whatever they are, and
+   an accepted observation contains no call that returned an error outside the scheduler's set.
+   Real-time cases ([Real]) are scripts run outside bubbles, in a process with the buffered timer
+   channels that the repository's go directive selects, three serial repetitions; a disagreement
+   counts when no repetition is what the model predicts. *)
+From Verif Require Import Proofs.C02_Real.
+
+(* an accepted observation, whatever contexts the callers used: every call returned a result of the
+   scheduler's own set (so the statements 20-23 speak about all of its calls) *)
+Theorem C02_accepted_observation_no_foreign_result :
+  forall c sc os, agree c = true -> c_body c = Timed sc os ->
+    forall ob, In ob os -> any_foreign ob = false.
+Proof. exact checked_no_foreign. Qed.
+Print Assumptions C02_accepted_observation_no_foreign_result.
+
+(* an accepted real-time case: one of the repetitions is the outcome of a final state of the model's
+   script -- no panic, no overlap, a one-off job started at most once *)
+Theorem C02_real_time_accepted_observation :
+  forall c sc os, agree c = true -> c_body c = Real sc os ->
+    exists ob, In ob os /\ o_panic (ob_out ob) = false /\ o_overlap (ob_out ob) <= 1
+      /\ (sc_kind sc = OneOff -> (length (o_starts (ob_out ob)) <= 1)%nat).
+Proof. exact checked_real_never_twice. Qed.
+Print Assumptions C02_real_time_accepted_observation.
+
+(* what the clause [justified] of P_b says of an observation that satisfies it: there are at most as
+   many starts as instances and (possibly) successful run requests together; without such a request
+   every start is AT the time of an instance; a start off the schedule has a run request issued no
+   later than it.  (Each cause is used once: an instance replaced by a run request is not run again
+   by its own timer -- what a re-armed timer with a stale value in its channel does.) *)
+Theorem C02_every_start_has_its_own_cause :
+  forall dur sts prev insts runs, justified dur prev sts insts runs = true ->
+    (length sts <= length insts + length runs)%nat
+    /\ (runs = [] -> forall s, In s sts -> In s insts)
+    /\ (forall s, In s sts -> ~ In s insts -> exists r, In r runs /\ r <= s).
+Proof.
+  intros dur sts prev insts runs H. split; [exact (justified_count _ _ _ _ _ H)|]. split.
+  - intros ->. exact (justified_no_runs _ _ _ _ H).
+  - exact (justified_off_schedule _ _ _ _ _ H).
+Qed.
+Print Assumptions C02_every_start_has_its_own_cause.
+
+(* non-vacuity: period 2, jobFunc takes 2, run request at 1 (it outlasts the tick at 2).  As the code
+   behaves: starts 1, 5, 9 with instances 2, 5, 9.  With a single re-armed timer and buffered timer
+   channels: starts 1, 3, 5 with instances 2, 5, 7 -- the start at 3 has no cause.  A run request
+   tied with a timer start is served when that execution returns. *)
+Example C02_justified_examples :
+  justified 2 None [1; 5; 9] [2; 5; 9] [1] = true
+  /\ justified 2 None [1; 3; 5] [2; 5; 7] [1] = false
+  /\ justified 2 None [4; 6] [4; 8] [4] = true.
+Proof. vm_compute. split; [reflexivity | split; reflexivity]. Qed.
